@@ -88,6 +88,13 @@ class Replayer:
                 self.dbobj = cc.get_database()
                 self.session = self.dbobj.session
                 return 'ok', ''
+            if c == 'lib_other_sigfile_rw':
+                from gambit.sigs import load_signatures
+                other = os.path.join(self.work, f'other_{self.n}.gs')
+                shutil.copy(self.good_sigs, other)
+                with load_signatures(other, mode='r+') as sg:
+                    _ = sg[0], len(sg)
+                return 'ok', ''
             if c in ('lib_other_rw_reader', 'lib_other_ro_reader'):
                 from gambit.db.sqla import file_sessionmaker
                 import glob as _g
@@ -259,6 +266,7 @@ def run(ctx):
             ['lib_load', 'lib_delete', 'lib_flush', 'lib_begin_block', 'lib_query', 'lib_close'],
             ['lib_load', 'lib_query', 'lib_bulk_update', 'lib_commit', 'lib_flush', 'lib_close', 'cli_query'],
             ['lib_load_ctx_engine_first', 'lib_edit', 'lib_flush', 'lib_commit', 'lib_query', 'lib_close'],
+            ['lib_other_sigfile_rw', 'lib_load', 'lib_read_sigs', 'lib_query', 'lib_close', 'lib_other_sigfile_rw', 'lib_load_ctx', 'lib_read_sigs', 'lib_close'],
             ['lib_load_ctx', 'lib_delete', 'lib_flush', 'lib_commit', 'lib_close', 'lib_load_ctx_engine_first', 'lib_add', 'lib_query', 'lib_begin_block', 'lib_close'],
             ['lib_load', 'lib_execute_update', 'lib_begin_block', 'cli_query', 'lib_rollback', 'lib_bulk_update', 'lib_close', 'lib_load', 'lib_query', 'lib_close'],
             ['lib_load', 'lib_edit', 'lib_flush', 'lib_commit', 'lib_query', 'lib_rollback', 'lib_read_sigs', 'lib_close'],
